@@ -229,6 +229,31 @@ def run(res):
     st = vlib.correspond(res, "span", cases, impl, model, describe, nontrivial, oracle)
     if st["disagreements"] == 0 and st["oracle_failures"] == 0:
         res.discharged.append(name)
+    # the labels inside a report: every label kind over ordinary, spacing-sensitive, directive-like and long shared-prefix texts (mixed
+    # 1-4 byte characters at every alignment), formatted through Display for ErrorReport under catch_unwind
+    import labels
+    name_l = "direct:formatting a report never panics whatever texts its labels carry (every label kind; long, mixed-width, shared-prefix texts)"
+    res.obligations.append(name_l)
+    lcases = labels.report_cases(random.Random(res.seed * 53 + 6), 60 if res.tier == "quick" else 1500)
+    limpl = vlib.run_harness("rt", lcases, env_extra={"RT_QUIET": "1"})
+    lbad = 0
+    for c, a in zip(lcases, limpl):
+        f = c.split("\t")
+        why = None
+        if a == "PANIC":
+            why = "formatting the report panics (inside panic! this aborts the process)"
+        else:
+            t = unhx(a).decode("utf-8", "replace")
+            if not t.startswith("assert_struct! failed"):
+                why = "the formatted report lacks its header"
+        if why:
+            lbad += 1
+            if lbad <= 3:
+                res.violation("failing-input", "%s: a `%s` entry whose value text is %r and whose expected text is %r"
+                              % (why, f[3], unhx(f[5]).decode()[:120], unhx(f[6]).decode()[:120]), {"case_line": c, "label_report": True})
+    res.streams["labels-inside-the-report"] = {"reports": len(lcases), "failures": lbad}
+    if not lbad:
+        res.discharged.append(name_l)
     name_b = "correspondence:multi-entry reports (one annotation and one label per entry, no panic)"
     res.obligations.append(name_b)
     stb = mspan.run_stream(res, mspan.oracle_c06, "multi-entry-spans")
@@ -258,6 +283,11 @@ def replay(res, path):
     ok, out = vlib.build_harness("rt")
     if not ok:
         raise vlib.CheckError("harness rt does not build: " + out[-1500:])
+    if v.get("label_report"):
+        a = vlib.run_harness("rt", [line], env_extra={"RT_QUIET": "1"})[0]
+        bad = a == "PANIC" or not unhx(a).decode("utf-8", "replace").startswith("assert_struct! failed")
+        print("impl:", a[:80], "->", "violation" if bad else "property holds on this input")
+        return 1 if bad else 0
     impl, hung = vlib.run_harness_or_hang("rt", [], [line], timeout=30)
     if hung:
         print("the case never finishes (violation)")
